@@ -229,6 +229,7 @@ class Interp:
         # in-repo helpers treated as primitives (reasoned, listed in evidence through assumptions)
         self.stubs = {"trimesh.util:is_shape": _stub_is_shape}
         self.decider = None  # optional callback(frame, test_node) -> bool | None
+        self.ext_stubs = {}  # dotted external callee -> callback(interp, args, kw)
         self.trace = None  # when a dict: (function qualname, variable) -> list of every value bound to that name / stored into it
         self._fresh = 0
 
@@ -236,6 +237,9 @@ class Interp:
     def ext_call(self, dotted, args, kw, node):
         name = dotted.split(".")[-1]
         kw = dict(kw)
+        if dotted in getattr(self, "ext_stubs", {}):
+            # the rule supplies the value of an external call (e.g. a determinant it wants to treat as a symbol)
+            return self.ext_stubs[dotted](self, args, kw)
         for k in ("dtype", "order", "copy", "subok"):
             kw.pop(k, None)
         if name == "array":
